@@ -45,7 +45,18 @@ func runSolver(ctx context.Context, sp solverSpec, file string, timeoutS int) so
 	secs := time.Since(t0).Seconds()
 	out := buf.String()
 	ans := "unknown"
-	first := strings.TrimSpace(strings.SplitN(out, "\n", 2)[0])
+	first := ""
+	var kept []string
+	for _, l := range strings.Split(out, "\n") {
+		if strings.HasPrefix(l, "WARNING") {
+			continue
+		}
+		kept = append(kept, l)
+		if first == "" && strings.TrimSpace(l) != "" {
+			first = strings.TrimSpace(l)
+		}
+	}
+	out = strings.Join(kept, "\n")
 	hasErr := false
 	for _, l := range strings.Split(out, "\n") {
 		if strings.HasPrefix(strings.TrimSpace(l), "(error") {
@@ -181,6 +192,29 @@ func solveOne(i int, o *Obligation, cfg solveCfg) {
 	default:
 		o.Status = "unknown"
 		o.Output = r.answer + " " + truncate(r.out, 500)
+		// Quantified library facts (append/copy contents) keep the solvers from
+		// answering sat. Look for a candidate counterexample with those facts
+		// dropped (weaker assumptions); only a replay on the real code can
+		// confirm such a candidate.
+		if !o.ExpectSat && strings.Contains(script, "(assert (forall") {
+			var b strings.Builder
+			for _, l := range strings.Split(script, "\n") {
+				if strings.HasPrefix(l, "(assert (forall") {
+					continue
+				}
+				b.WriteString(l)
+				b.WriteString("\n")
+			}
+			wfile := strings.TrimSuffix(file, ".smt2") + ".weak.smt2"
+			os.WriteFile(wfile, []byte(b.String()), 0o644)
+			rw := runSolver(context.Background(), solvers[0], wfile, cfg.fullT)
+			o.Queries = append(o.Queries, fmt.Sprintf("weak/%s:%s:%.2fs", rw.solver, rw.answer, rw.secs))
+			if rw.answer == "sat" {
+				o.Status = "violated"
+				o.Weak = true
+				o.Output = "candidate counterexample found with the quantified library facts dropped"
+			}
+		}
 	}
 	if o.Status == "discharged" {
 		os.Remove(file)
